@@ -216,7 +216,7 @@ def ExtraOK (cfg : Cfg) : Prop := ∀ r ∈ cfg.extra, r.kind = .recorder ∧ r.
 
 theorem serveWriteLine_wrote (req : Req) (u : Account) (h : (serveWriteLine req u).served = true ∨ (serveWriteLine req u).wrote = true) :
     (serveWriteLine req u).served = false ∧ authorizeAction u.user (databaseResource req.db) writePriv = .allow := by
-  unfold serveWriteLine at h ⊢
+  unfold serveWriteLine writeResource at h ⊢
   by_cases hdb : req.db = []
   · simp [hdb] at h
   · by_cases ha : authorizeAction u.user (databaseResource req.db) writePriv = .allow
